@@ -39,7 +39,7 @@ T = {
          "Held on the pairs produced."),
  "C16": ("ground-truth multiset oracle for sequential iteration (also with the clock advancing under a live iterator) + free-running writers / churn / iterators stress with recorded operation intervals + must-live-at-quiescence rule",
          "Held on the executions produced."),
- "C17": ("exhaustive enumeration of the builder lattice at boundary values + sampled differential histories between equivalent configurations",
+ "C17": ("exhaustive enumeration of the builder lattice at boundary values + sampled differential histories between equivalent configurations (with / without initial_capacity; a capacity above u32::MAX with weights in units of f against the same history scaled down by f)",
          "The lattice part is exhaustive (12288 builder combinations); behavioural equivalence is sampled."),
 }
 eng = {"C01": "seqmon", "C02": "conmon+seqmon", "C03": "seqmon+conmon", "C04": "seqmon+conmon", "C05": "seqmon", "C06": "seqmon", "C07": "seqmon+conmon",
